@@ -433,3 +433,28 @@ def pmap(fn, items, procs=None):
     ctx = mp.get_context("fork")
     with ctx.Pool(procs or min(NCPU, 16)) as pool:
         return pool.map(fn, items, chunksize=1)
+
+
+def run_corpus(prop, check_case, opts, res):
+    """Replay the committed regression cases of a property (corpus/<ID>/*.json) first."""
+    d = os.path.join(VERIF, "corpus", prop)
+    if not os.path.isdir(d):
+        return
+    files = sorted(f for f in os.listdir(d) if f.endswith(".json"))
+    items = [(prop, os.path.join(d, f)) for f in files]
+    for f in files:
+        p = os.path.join(d, f)
+        case = load_replay(p)["case"]
+        try:
+            info = check_case(case, opts)
+            res.evaluations += 1
+            res.add_class("corpus_replayed")
+            if info is not None and info.nontrivial:
+                res.nontrivial.add(case_hash(case))
+        except Violation as v:
+            if v.sig and v.sig in known_active(prop):
+                res.known_hits[v.sig] = v.what
+                continue
+            res.violations.append((v.what + " (regression case)", p))
+        except Inconclusive:
+            res.inconclusive += 1
